@@ -233,6 +233,24 @@ fn main() {
         suites::replay(&args[2]);
         return;
     }
+    if args.len() >= 3 && args[1] == "search" {
+        // `harness search <request> [<out.json>]`: validators on amplified variants of the request; one JSON line per failure
+        let mut ctx = new_ctx("/dev/null");
+        let line = args[2].clone();
+        let r = std::thread::Builder::new().stack_size(256 << 20).spawn(move || {
+            suites::search(&line, &mut ctx);
+            ctx.violations.iter().map(|v| format!("{{\"property\":{},\"request\":{},\"detail\":{},\"known\":{}}}", json_str(&v.property), json_str(&v.request), json_str(&v.detail), match &v.known { Some(k) => json_str(k), None => "null".to_string() })).collect::<Vec<_>>()
+        }).unwrap().join();
+        match r {
+            Ok(lines) => {
+                for l in lines {
+                    println!("SEARCH-VIOLATION {}", l);
+                }
+            }
+            Err(_) => println!("SEARCH-DIED"),
+        }
+        return;
+    }
     if args.len() < 6 || (args[1] == "hangcase" && args.len() < 9) {
         eprintln!("usage: harness <suite> <quick|thorough> <seed> <nshards> <outdir> | harness replay <request line>");
         std::process::exit(2);
